@@ -1,7 +1,7 @@
 #!/bin/bash
 # try_patch.sh <patch.diff> <prop> [<prop> ...] : apply a seeded change to /repo, run the quick checks, undo it.
 set -u
-patch=$1; shift
+patch=$(realpath "$1"); shift
 cd /repo || exit 2
 git apply "$patch" || { echo "patch does not apply"; exit 2; }
 trap 'git -C /repo checkout -- . ; git -C /repo clean -fdq -- syncer pkg cmd config 2>/dev/null' EXIT
